@@ -10,6 +10,7 @@ import (
 	"net"
 	"strings"
 	"testing"
+	"testing/synctest"
 
 	"github.com/pion/logging"
 	"github.com/pion/transport/v3/vnet"
@@ -107,9 +108,35 @@ func runHost(h *common.History) {
 	if err = r.AddNet(n); err != nil {
 		panic(err)
 	}
+	// a second host on the same router sends the probe datagrams of the lookups
+	pn, err := vnet.NewNet(&vnet.NetConfig{StaticIPs: []string{"1.2.3.250"}})
+	if err != nil {
+		panic(err)
+	}
+	if err = r.AddNet(pn); err != nil {
+		panic(err)
+	}
+	if err = r.Start(); err != nil {
+		panic(err)
+	}
+	defer func() { _ = r.Stop() }()
+	prober, err := pn.ListenUDP("udp", &net.UDPAddr{IP: net.IPv4(1, 2, 3, 250), Port: 9})
+	if err != nil {
+		panic(err)
+	}
+	isEth := func(ip net.IP) bool {
+		for _, s := range statics {
+			if net.ParseIP(s).Equal(ip) {
+				return true
+			}
+		}
+		return false
+	}
 	socks := map[int]closer{}
 	stale := map[int]closer{} // handles that were closed already
 	ids := map[*vnet.UDPConn]int{}
+	all := []*vnet.UDPConn{}
+	pend := map[*vnet.UDPConn]int{}
 	next := 0
 	h.Obs = nil
 	for i, op := range h.Ops {
@@ -121,13 +148,29 @@ func runHost(h *common.History) {
 			}
 			var c interface{}
 			var err error
-			switch (i + port) % 3 {
-			case 0:
-				c, err = n.ListenUDP("udp", &net.UDPAddr{IP: ip, Port: port})
-			case 1:
-				c, err = n.ListenPacket("udp", fmt.Sprintf("%s:%d", ip.String(), port))
-			default:
-				c, err = n.DialUDP("udp", &net.UDPAddr{IP: ip, Port: port}, &net.UDPAddr{IP: net.IPv4(1, 2, 3, 250), Port: 9})
+			la0 := &net.UDPAddr{IP: ip, Port: port}
+			bind := func() {
+				switch (i + port) % 3 {
+				case 0:
+					c, err = n.ListenUDP("udp", la0)
+				case 1:
+					c, err = n.ListenPacket("udp", fmt.Sprintf("%s:%d", ip.String(), port))
+				default:
+					c, err = n.DialUDP("udp", la0, &net.UDPAddr{IP: net.IPv4(1, 2, 3, 250), Port: 9})
+				}
+			}
+			bind()
+			if err != nil {
+				// a refused bind changes nothing: the same call again (same address value, as in a retry loop) is refused again
+				bind()
+				if err == nil {
+					uc, _ := c.(*vnet.UDPConn)
+					la, _ := uc.LocalAddr().(*net.UDPAddr)
+					h.Ops[i][3] = "0"
+					h.Obs = append(h.Obs, []string{"97", common.I(la.Port), "0"})
+					h.Tags = append(h.Tags, "RETRY_OF_REFUSED_BIND_SUCCEEDED")
+					break
+				}
 			}
 			if err != nil {
 				code := "99"
@@ -157,9 +200,13 @@ func runHost(h *common.History) {
 			}
 			socks[next] = uc
 			ids[uc] = next
+			all = append(all, uc)
 			h.Obs = append(h.Obs, []string{"0", common.I(la.Port), common.I(next)})
 			next++
 		case "2":
+			if op[1] == "L" {
+				h.Ops[i][1] = common.I(max(next-1, 0)) // the socket bound last
+			}
 			id := common.AtoI(op[1])
 			if s, ok := socks[id]; ok {
 				_ = s.Close()
@@ -177,17 +224,39 @@ func runHost(h *common.History) {
 				ip = ip.To16() // the 16-byte form of the same IPv4 address must behave identically
 			}
 			c := vnet.VerifFindSock(n, ip, port)
+			res := "-3"
 			if c == nil {
-				h.Obs = append(h.Obs, []string{"-1"})
+				res = "-1"
 			} else if id, ok := ids[c]; ok {
 				if _, open := socks[id]; open {
-					h.Obs = append(h.Obs, []string{common.I(id)})
+					res = common.I(id)
 				} else {
-					h.Obs = append(h.Obs, []string{"-2"}) // a closed socket is still registered
+					res = "-2" // a closed socket is still registered
 				}
-			} else {
-				h.Obs = append(h.Obs, []string{"-3"})
 			}
+			if isEth(ip) {
+				// a probe datagram from the other host, through the router, must arrive at that same socket and at no other
+				if _, err := prober.WriteTo([]byte{byte(i)}, &net.UDPAddr{IP: ip, Port: port}); err != nil {
+					panic(err)
+				}
+				synctest.Wait()
+				got := "-1"
+				for _, uc := range all {
+					if k := vnet.VerifPending(uc); k != pend[uc] {
+						pend[uc] = k
+						if _, open := socks[ids[uc]]; open && got == "-1" {
+							got = common.I(ids[uc])
+						} else {
+							got = "-5" // a closed socket, or two sockets, received it
+						}
+					}
+				}
+				if got != res {
+					res = "-4 " + got // the probe went elsewhere
+				}
+				h.Tags = append(h.Tags, "probe_datagram")
+			}
+			h.Obs = append(h.Obs, []string{res})
 		default:
 			h.Obs = append(h.Obs, nil)
 		}
@@ -290,6 +359,17 @@ func genHost(r *rand.Rand) *common.History {
 	}
 	for i := 0; i < n; i++ {
 		switch c := r.IntN(100); {
+		case c < 4:
+			// an address that has received traffic is released and bound again; the next datagram belongs to the new socket
+			ip, port := eth[r.IntN(len(eth))], ports[2+r.IntN(len(ports)-2)]
+			sip := ip
+			if r.IntN(3) == 0 {
+				sip = 0
+			}
+			h.Ops = append(h.Ops, []string{"1", common.I(sip), common.I(port), "0"}, []string{"3", common.I(ip), common.I(port)},
+				[]string{"2", "L"}, []string{"1", common.I(sip), common.I(port), "0"}, []string{"3", common.I(ip), common.I(port)})
+			nsock += 2
+			h.Tags = append(h.Tags, "rebind_after_traffic")
 		case c < 55:
 			h.Ops = append(h.Ops, []string{"1", common.I(ipChoices[r.IntN(len(ipChoices))]), common.I(ports[r.IntN(len(ports))]), "0"})
 			nsock++
@@ -328,7 +408,7 @@ func TestHarness(t *testing.T) {
 		}
 	}
 	for _, h := range hs {
-		run(h)
+		synctest.Test(t, func(*testing.T) { run(h) }) // the probe datagrams travel through a running router: quiescence = delivered
 		w.Put(h)
 	}
 	w.Close(a.Out)
